@@ -262,6 +262,7 @@ type scenario struct {
 	liveFor    time.Duration // length of the live phase
 	thenSilent bool          // after the live phase the peer goes silent and must be expired
 	port0      bool          // regression: RECORD whose first UDP write fails
+	pre        bool          // the peer stops after SETUP (pre-play / pre-record) and goes silent: oracle-only
 }
 
 type scenResult struct {
@@ -350,7 +351,9 @@ func runScenario(s scenario) (res scenResult) {
 		}
 	}
 	t0 := time.Now()
-	rr = do(last)
+	if !s.pre {
+		rr = do(last)
+	}
 	c.mu.Lock()
 	sr := c.sessions[0]
 	c.mu.Unlock()
@@ -360,7 +363,7 @@ func runScenario(s scenario) (res scenResult) {
 		return sr.closedAt, sr.closes > 0
 	}
 	timeout := s.idle
-	if s.record {
+	if s.record && !s.pre {
 		timeout = s.read
 	}
 
@@ -420,7 +423,7 @@ func runScenario(s scenario) (res scenResult) {
 			evs[j], evs[j-1] = evs[j-1], evs[j]
 		}
 	}
-	if !s.tcp {
+	if !s.tcp && !s.pre {
 		for _, e := range evs {
 			cl.I(e.kind).N(uint64(e.t))
 		}
@@ -486,14 +489,14 @@ func runScenario(s scenario) (res scenResult) {
 			if el < timeout-1100*time.Millisecond {
 				fail("expired-too-early", "closed %v after the last activity, timeout is %v", el, timeout)
 			}
-			if !s.tcp && !strings.Contains(sr.why, "timed out") {
+			if !s.tcp && !s.pre && !strings.Contains(sr.why, "timed out") {
 				fail("silent-peer-wrong-reason", "closed with %q", sr.why)
 			}
 		} else {
 			fail("silent-peer-not-expired", "peer silent for %v (timeout %v + check period %v + slack %v) and the session is still open", bound, timeout, s.cp, timingSlack)
 		}
 	}
-	if !s.tcp {
+	if !s.tcp && !s.pre {
 		var il hx.L
 		il.B(closed)
 		res.implLine = il.String()
@@ -515,6 +518,11 @@ func scenarios(thorough bool) []scenario {
 		{name: "record-udp media", record: true, idle: 60 * S, read: 3 * S, cp: 200 * ms, pktEvery: 200 * ms, liveFor: 4200 * ms},
 		{name: "record-udp silent", record: true, idle: 60 * S, read: 2 * S, cp: 200 * ms, thenSilent: true},
 		{name: "play-tcp silent", tcp: true, idle: 2 * S, read: 10 * S, cp: 200 * ms, thenSilent: true},
+		// a peer that stops after SETUP and goes silent with its control connection open: no streaming has begun, the
+		// connection's read deadline (IdleTimeout) ends connection and session, whatever the mode and the transport
+		{name: "pre-record-udp silent", record: true, pre: true, idle: 2 * S, read: 10 * S, cp: 200 * ms, thenSilent: true},
+		{name: "pre-play-udp silent", pre: true, idle: 2 * S, read: 10 * S, cp: 200 * ms, thenSilent: true},
+		{name: "pre-record-tcp silent", record: true, tcp: true, pre: true, idle: 2 * S, read: 10 * S, cp: 200 * ms, thenSilent: true},
 	}
 	if thorough {
 		out = append(out,
